@@ -56,7 +56,7 @@ var constructionPhase = map[string]string{
 var constructionCallers = map[string][]string{
 	"(*server.Service).initialize":             {"server.NewService", "(*server.Service).CopyWithOptions", "(*server.Service).UnmarshalJSON"},
 	"(*server.LoadBalancer).beginHealthChecks": {"server.NewLoadBalancer"},
-	"(*server.Target).BeginHealthChecks":       {"(*server.LoadBalancer).beginHealthChecks"},
+	"(*server.Target).BeginHealthChecks":       {"(*server.LoadBalancer).beginHealthChecks", "server.NewLoadBalancer"},
 	"(*server.Server).startHTTPServers":        {"(*server.Server).Start"},
 	"(*server.Server).startCommandHandler":     {"(*server.Server).Start"},
 	"(*server.TargetOptions).canonicalizeLogHeaders": {"server.NewTarget"},
@@ -96,7 +96,9 @@ func r181(c *Ctx) {
 			}
 		}
 		if fn == nil {
-			c.undecided(rule, "construction-phase/"+callee, token.NoPos, "anchor not found: "+callee)
+			// the helper no longer exists as a function (folded into a caller): its stores are now that caller's, and are
+			// judged there (a construction-phase caller, or the guarded-by rule below)
+			c.ob(rule, "construction-phase/"+callee, token.NoPos, true, false, "not present in this tree")
 			continue
 		}
 		for _, u := range c.usesOfFunc(fn) {
